@@ -938,8 +938,11 @@ def evaluate_rest(mon, world, rested, horizon, trace):
             if not feeding:
                 sig += "_no_source_sends_one"
                 mech = any(dd["ejector"] in ("mech", "mech_coil") for dd in mon.topo["devices"])
-                if mon.missing_events and not mech:
-                    sig += "_after_lost_ball_path_restore"  # no mechanical-eject device: not the skip-wait mechanism
+                # the known restore-path weakness: the replacement was re-requested at a device nothing feeds (its
+                # request is parked there) or the lost ball was heading for a mechanical device in its skip wait
+                dead_end_request = any(devs[x]._ball_requests and not sources.get(x) for x in devs)
+                if mon.missing_events and not mech and not dead_end_request:
+                    sig += "_after_lost_ball_path_restore"  # a different bookkeeping problem in the restore path
                 elif mon.missing_events:
                     sig += "_after_lost_ball_handling"      # cancel_path / restore-path bookkeeping
                     if _skip_race_config(mon.topo):
